@@ -15,6 +15,7 @@ func init() {
 			"PV-ROLE LiteralBinOp always builds the literal iterator (no neutral-element short cut); the lexer hands on the scanned text itself",
 			"PV-PAIR scalar operand per sample; PV-ROLE build recursion one level at a time",
 			"PV-ROLE build: scalar-left / scalar-right forms keep the sides and the operator as written (no normalisation through a swapped-operator table)",
+			"PV-ONCE both sides advance",
 		},
 		NotDecided: []string{"operand parsing (parseMetricExpr1 productions other than parentheses) – C05", "evaluation of the resulting tree – C12"},
 		Rules: func(r *Run) {
@@ -31,6 +32,7 @@ func init() {
 			ruleLiteralOperandPerSample(r)
 			ruleBuildDescendsOneLevel(r)
 			ruleBinOpIterators(r) // a literal written on the left stays the left operand of its operator
+			ruleBothSidesAdvance(r)
 		},
 	})
 }
